@@ -237,7 +237,7 @@ def run_item(item):
 
     def body(st):
         fn(st, **params)
-    ex = Explorer(body, max_seconds=item.get("budget_s"), timeout_ms=item.get("timeout_ms", 60000),
+    ex = Explorer(body, max_seconds=item.get("budget_s", float(os.environ.get("PYSX_ITEM_BUDGET_S", "900"))), timeout_ms=item.get("timeout_ms", 60000),
                   prefix_roots=item.get("roots"), defer_depth=item.get("defer_depth"),
                   yield_after=item.get("yield_s", float(os.environ.get("PYSX_YIELD_S", "15"))))
     err = None
